@@ -10,7 +10,7 @@ CARRIERS = [S + "__init__"] + [S + g for g in ("plate_ids", "sample_ids", "treat
     S + "invert", S + "combine", S + "subset", "batchie.data.Screen.subset", "batchie.data.Screen.subset_observed",
     "batchie.data.Screen.subset_unobserved", "batchie.data.Screen.get_plate", "batchie.data.Screen.plates",
     "batchie.data.Plate.plate_id", "batchie.data.Plate.plate_name", S + "concat", S + "to_screen",
-    "batchie.common.select_unique_zipped_numpy_arrays", "batchie.data.filter_dataset_to_unique_treatments"]
+    "batchie.common.select_unique_zipped_numpy_arrays", "batchie.data.filter_dataset_to_unique_treatments", "batchie.data.filter_dataset_to_unique_treatments@view"]
 NATIVE = "c14.py"
 EXPLANATION = (
     "Bodies of ScreenSubset.__init__, its eight per-experiment getters, invert, combine, concat (symbolic-length list), subset, "
@@ -22,7 +22,8 @@ EXPLANATION = (
     "NEW vector and leaves the outer view untouched; observed/unobserved views are the mask / its complement and None iff "
     "empty; plates = one non-empty view per distinct plate id, ascending, covering every row; to_screen = the six columns "
     "selected in order + same control name; unique filter = exactly one representative per distinct (sample, treatment ids) "
-    "tuple. Observation values are opaque payloads, so 'same value' is identity in the logic.")
+    "tuple; applied to a VIEW (the way score_chunk conditions a candidate plate on the batch) it returns a new view of the same parent that "
+    "selects, among the rows of the view, exactly one row per distinct tuple and leaves the operand untouched (arity 1-3). Observation values are opaque payloads, so 'same value' is identity in the logic.")
 TRUSTED = ["pyvc symbolic executor; z3 5.1", "numpy selection theory (rank/idx), scatter, np.where, np.unique models (pyvc.lib)",
            "Screen.__init__ assumed contract (C01 covers its body)"]
 ASSUMPTIONS = []
